@@ -95,6 +95,9 @@ func VerifC08() {
 			}
 			return nil
 		})
+		if disturb != 0 {
+			verifYield() // the workers may get ahead of the producer (after an error they skip what they dequeue)
+		}
 		if i == stopAfter {
 			e.Stop()
 		}
